@@ -30,7 +30,7 @@ REQUIRED = ["contract:CVR.make_phantoms", "accounting_checked:style", "accountin
             "pool_means_with_phantoms_checked", "pool_means_with_phantoms_checked:assorter_bound_not_1",
             "audit_wide_max_cards_differs_from_stratum_bound", "phantom_mvrs_for_sampled_phantom_cards_checked",
             "phantom_mvrs_for_sampled_phantom_cards_checked:another_prefix", "contest_with_card_bound_zero", "call_on_a_list_that_already_holds_phantoms:no_style",
-            "phantom_manual_record_built_by_from_raire", "phantom_mvrs_for_manifest_lookups_checked", "phantom_mvrs_for_manifest_lookups_checked:hart", "contests_dict_keyed_by_something_other_than_the_identifier", "assorter:plurality", "assorter:supermajority", "assorter:irv"]
+            "phantom_manual_record_built_by_from_raire", "phantom_mvrs_for_manifest_lookups_checked", "phantom_mvrs_for_manifest_lookups_checked:hart", "contests_dict_keyed_by_something_other_than_the_identifier", "worstcase_data_route_checked", "assorter:plurality", "assorter:supermajority", "assorter:irv"]
 ASSUMPTIONS = ["card bounds >= number of records listing the contest; with style the input list holds no phantoms (the "
                "function is documented for 'the reported CVRs'); without style it may",
                "a phantom labelled pooled inside a pooled batch is scored with that batch's mean by design (C03 depends "
@@ -212,6 +212,24 @@ def run_case(es, rec):
             idx = sim.audited_indices(cid)
             for name, a in con.assertions.items():
                 rec.count(f"assorter:{sc['kind']}")
+                if idx and sc["audit_type"] in ("CARD_COMPARISON", "ONEAUDIT"):
+                    # the same worst case by the route an audit takes: every card of the population unfindable, data built by
+                    # mvrs_to_data - each datum must be what the overstatement assorter gives that (phantom, CVR) pair
+                    cvs = [sim.cvr_list[i] for i in idx]
+                    phs = [CVR(id=cv_.id, votes={}, phantom=True) for cv_ in cvs]
+                    okd, du = rec.guard(f"c08.call:mvrs_to_data:{sc['kind']}", a.mvrs_to_data, phs, cvs, True)
+                    if not okd:
+                        return
+                    dd = [float(z) for z in du[0]]
+                    direct = [float(a.overstatement_assorter(p_, c_, sim.use_style)) for p_, c_ in zip(phs, cvs)]
+                    rec.count("worstcase_data_route_checked")
+                    if len(dd) != len(direct) or any(x_ > y_ + 1e-12 for x_, y_ in zip(dd, direct)):
+                        j_ = next((q for q, (x_, y_) in enumerate(zip(dd, direct)) if x_ > y_ + 1e-12), None)
+                        rec.violation("c08.worstcase", f"{sc['kind']}:unfindable_card_scored_higher_by_the_data_route_than_by_the_assorter",
+                                      {"contest": cid, "assertion": name, "n_data": len(dd), "n_cards": len(direct),
+                                       "datum": None if j_ is None else dd[j_], "assorter_value": None if j_ is None else direct[j_],
+                                       "cvr": None if j_ is None else cvs[j_].votes, "use_style": sim.use_style})
+                        return
                 for i in idx:
                     cv = sim.cvr_list[i]
                     mv = sim.mvr_for(i)
